@@ -137,7 +137,7 @@ def run_cases(chk, fam, cases, label='', peers=None, python=None):
                                        rec['o'], len(rec['ev'])], sort_keys=True))
         for ent in v:
             f, clause, at = ent[0], ent[1], ent[2]
-            if f not in fam:
+            if f not in fam and clause not in fam:
                 continue
             sig = signature(c, res[c['id']], rec, f, clause, at)
             chk.violation(sig, '%s in world %s (%s)' % (clause, c['id'], c['mode']),
@@ -157,7 +157,7 @@ def ispec_record(case, rec):
     Runner.tla, or None when the case uses something Runner.tla does not model
     (filters, levels, nested suites, scripted crashes, import trouble)"""
     world, o = case['world'], case['o']
-    if world.get('suite') or world.get('import', 'ok') != 'ok' or world.get('env'):
+    if world.get('suite') or world.get('import', 'ok') != 'ok' or world.get('env') or o.get('pm'):
         return None
     if any(k in o for k in ('t', 'm', 'layer', 'unit', 'non_unit', 'only_level', 'all', 'at_level',
                             'shuffle', 'list', 'extra')):
